@@ -170,4 +170,17 @@ def main(argv):
 
 
 if __name__ == "__main__":
-    main(sys.argv[1:])
+    _cov = None
+    if os.environ.get("VERIF_COVERAGE"):
+        # reach measurement (tools/coverage_report.py): which lines of the code under test do the generated cases execute
+        import coverage
+        _repo = os.environ.get("VERIF_REPO", "/repo")
+        _cov = coverage.Coverage(data_file=os.path.join(os.environ["VERIF_COVERAGE"], "cov.%s.%s.%d" % (sys.argv[1], sys.argv[2], os.getpid())),
+                                 source=[os.path.join(_repo, "pero_ocr"), os.path.join(_repo, "user_scripts")], branch=True)
+        _cov.start()
+    try:
+        main(sys.argv[1:])
+    finally:
+        if _cov is not None:
+            _cov.stop()
+            _cov.save()
